@@ -24,7 +24,7 @@ VARIABLES stack, steps
 ovars == <<stack, steps>>
 
 Leaves ==
-       { Leaf(t, CZero, <<>>, <<>>) : t \in LeafSet \cap {"id", "zero", "sq", "l2sq", "l1"} }
+       { Leaf(t, CZero, <<>>, <<>>) : t \in LeafSet \cap {"id", "zero", "sq", "l2sq", "l1", "swap"} }
   \cup { Leaf("scale", a, <<>>, <<>>) : a \in (IF "scale" \in LeafSet THEN Scal ELSE {}) }
   \cup { Leaf("mat", CZero, <<>>, m) : m \in (IF "mat" \in LeafSet THEN Mats ELSE {}) }
   \cup { Leaf(t, CZero, v, <<>>) : t \in LeafSet \cap {"mulvec", "inner", "const", "shift", "smul"}, v \in Vecs }
